@@ -142,6 +142,8 @@ structure State where
   stk : List ((Nat × Nat) × Int)
   /-- balance of the reward denom held by the x/incentives module account -/
   incBal : Int
+  /-- x/incentives `LastGaugeID` (gauge ids are handed out as `LastGaugeID + 1`) -/
+  lastGauge : Nat := 0
   deriving DecidableEq, Repr
 
 def State.init (minAlloc minVP : Int) : State :=
@@ -152,6 +154,7 @@ inductive Err
   | badWeights | minAlloc | noGauge | notPerpetual | lowPower | noVote
   | cannotClaim | notEndorsement | noEndorsement | noPower | payFailed | panic
   | hookErr | finishedGauge | noFunds
+  | badParams | rollappExists | noRollapp | badGauge
   deriving DecidableEq, Repr
 
 /-! association-list helpers (`set` = drop the key, then cons) -/
@@ -385,6 +388,45 @@ def State.fund (s : State) (gid : Nat) (amt : Int) : Except Err State :=
   | some g =>
     if !g.perpetual && decide (g.numEpochs ≤ g.filled) then .error .finishedGauge else .ok (s.funded g amt)
 
+/-! ### world building: x/incentives gauge creation, the `RollappCreated` hook, `MsgUpdateParams` -/
+
+/-- the stored gauge a creation request `g` becomes: fresh id, nothing distributed, upcoming; only
+    endorsement gauges carry (reward-denom) coins in the model -/
+def newGauge (id : Nat) (g : Gauge) : Gauge :=
+  { id := id, kind := g.kind, perpetual := g.perpetual, numEpochs := g.numEpochs,
+    coins := if isEndorsement g.kind then g.coins else 0 }
+
+/-- `CreateAssetGauge` (kind `asset`: any gauge that is neither a rollapp nor an endorsement gauge) /
+    `CreateEndorsementGauge` (the rollapp must exist — it has an endorsement exactly then; the coins
+    move from the creator to the module account).  Rollapp gauges are created by the hook below only. -/
+def State.addGauge (s : State) (g : Gauge) : Except Err State :=
+  match g.kind with
+  | .rollapp _ => .error .badGauge
+  | .asset =>
+    .ok { s with gauges := s.gauges ++ [newGauge (s.lastGauge + 1) g], lastGauge := s.lastGauge + 1 }
+  | .endorsement r =>
+    if (s.endorsement? r).isNone then .error .noRollapp else
+    if g.coins < 0 then .error .badGauge else
+    .ok { s with gauges := s.gauges ++ [newGauge (s.lastGauge + 1) g], lastGauge := s.lastGauge + 1,
+                 incBal := s.incBal + g.coins }
+
+/-- x/streamer `Hooks.RollappCreated` (fired by MsgCreateRollapp, which rejects an existing rollapp id
+    before): `CreateRollappGauge` (perpetual, id `LastGaugeID + 1`) then
+    `SaveEndorsement(NewEndorsement(rollapp, gaugeId))` with zero total / epoch shares -/
+def State.addRollapp (s : State) (r : Nat) : Except Err State :=
+  if (s.endorsement? r).isSome then .error .rollappExists else
+  .ok { s with gauges := s.gauges ++ [{ id := s.lastGauge + 1, kind := .rollapp r, perpetual := true }],
+               endorsements := s.endorsements ++ [⟨r, s.lastGauge + 1, 0, 0⟩],
+               lastGauge := s.lastGauge + 1 }
+
+/-- `Params.Validate` (MsgUpdateParams.ValidateBasic) -/
+def validParams (ma mv : Int) : Bool := decide (0 ≤ ma) && decide (ma ≤ maxW) && decide (0 ≤ mv)
+
+/-- `MsgServer.UpdateParams` sent by the authority: `SetParams` and nothing else — the stored votes
+    are NOT revisited (a vote below a raised MinVotingPower stays until its voter's next hook) -/
+def State.setParams (s : State) (ma mv : Int) : Except Err State :=
+  if !validParams ma mv then .error .badParams else .ok { s with minAlloc := ma, minVP := mv }
+
 /-! ### ops -/
 
 inductive Op
@@ -396,6 +438,12 @@ inductive Op
   | slash (fin : List ((Nat × Nat) × Option Int))
   | epochEnd (distr : Bool)
   | fund (gid : Nat) (amt : Int)
+  /-- gauge creation in x/incentives (asset / endorsement gauge); the id is the model's `lastGauge + 1` -/
+  | addGauge (g : Gauge)
+  /-- MsgCreateRollapp → `RollappCreated` hook: rollapp gauge + endorsement -/
+  | addRollapp (r : Nat)
+  /-- x/sponsorship MsgUpdateParams by the authority -/
+  | setParams (minAlloc minVP : Int)
   deriving Repr
 
 /-- one op; the state is unchanged on error (per-message cache context); second component: amount
@@ -416,6 +464,15 @@ def step (s : State) : Op → State × Option Err × Int
   | .slash fin => (s.slash fin, none, 0)
   | .epochEnd d => (s.epochEnd d, none, 0)
   | .fund g amt => match s.fund g amt with
+    | .ok s1 => (s1, none, 0)
+    | .error e => (s, some e, 0)
+  | .addGauge g => match s.addGauge g with
+    | .ok s1 => (s1, none, 0)
+    | .error e => (s, some e, 0)
+  | .addRollapp r => match s.addRollapp r with
+    | .ok s1 => (s1, none, 0)
+    | .error e => (s, some e, 0)
+  | .setParams ma mv => match s.setParams ma mv with
     | .ok s1 => (s1, none, 0)
     | .error e => (s, some e, 0)
 
